@@ -29,6 +29,7 @@ T_CAT = z3.Function('tbl_cat', TBL, I, TBL, TBL)              # __iadd__        
 T_APPLY = z3.Function('tbl_apply', TBL, I, ANY, I, I, B, TBL)  # apply_formatting   (group F3)
 T_REMOVE = z3.Function('tbl_remove', TBL, I, ANY, I, I, TBL)  # remove_formatting  (group M2)
 T_SHIFT = z3.Function('tbl_shift', TBL, I, B, TBL)            # _shift_settings_idx (group W1)
+T_FILL = z3.Function('tbl_fill', VL, I, TBL)                  # AnsiString(text, s.ansi_settings_at(i))  (groups N1, F2, F3)
 
 
 class AbsTbl(HeapObj):
@@ -41,6 +42,17 @@ class AbsTbl(HeapObj):
 
     def __repr__(self):
         return 'AbsTbl#%d(%s)' % (self.aid, self.term)
+
+
+class AbsSettings:
+    """the list of setting objects ansi_settings_at returns on an abstract table, known by its texts only"""
+    __slots__ = ('term',)
+
+    def __init__(self, term):
+        self.term = term
+
+    def __repr__(self):
+        return 'AbsSettings(%s)' % self.term
 
 
 class AbsVal:
@@ -78,6 +90,10 @@ def axioms():
     ax.append(z3.ForAll([t, n, s, lo, hi, k], z3.Implies(z3.Or(k < lo, k >= hi),
                                                         VT(T_REMOVE(t, n, s, lo, hi), k) == VT(t, k)),
                         patterns=[VT(T_REMOVE(t, n, s, lo, hi), k)]))
+    # N1 + F2 + F3: a text built with the settings another string reports at one index carries them on every character
+    vl = z3.Const('vl', VL)
+    ax.append(z3.ForAll([vl, n, k], z3.Implies(z3.And(0 <= k, k < n), VT(T_FILL(vl, n), k) == vl),
+                        patterns=[VT(T_FILL(vl, n), k)]))
     return ax
 
 
